@@ -901,6 +901,21 @@ def np_isnan(it, x):
     return _ret(npm.unary(f, _arr(it, x), "bool"))
 
 
+def np_isclose(it, a, b, rtol=1e-05, atol=1e-08, equal_nan=False):
+    """numpy's definition over the reals: |a - b| <= atol + rtol * |b|  (finite values; A-real)"""
+    from fractions import Fraction as _F
+    rt, at = _F(str(rtol)), _F(str(atol))
+
+    def f(x, y):
+        return sym.le(sym.py_abs(sym.sub(x, y)), sym.add(at, sym.mul(rt, sym.py_abs(y))))
+    return _ret(npm.elementwise(f, _arr(it, a), _arr(it, b), "bool"))
+
+
+def np_allclose(it, a, b, rtol=1e-05, atol=1e-08, equal_nan=False):
+    r = np_isclose(it, a, b, rtol, atol)
+    return sym.b_and(*[_as_bool(it, e) for e in (r.data if isinstance(r, NDArr) else [r])])
+
+
 def np_linspace(it, a, b, n=50):
     n = it.concrete_int(n)
     if n == 1:
@@ -945,7 +960,8 @@ def _np_table():
                  ("append", np_append), ("insert", np_insert), ("delete", np_delete), ("roll", np_roll),
                  ("split", np_split), ("clip", np_clip), ("max", np_max), ("min", np_min), ("argmax", np_argmax),
                  ("median", np_median), ("isnan", np_isnan), ("linspace", np_linspace),
-                 ("intersect1d", np_intersect1d), ("nonzero", np_nonzero), ("transpose", np_transpose)]:
+                 ("intersect1d", np_intersect1d), ("nonzero", np_nonzero), ("transpose", np_transpose),
+                 ("isclose", np_isclose), ("allclose", np_allclose)]:
         t[n] = ModelFn("np." + n, f)
     t["zeros"] = ModelFn("np.zeros", lambda it, shape, dtype="float": npm.zeros(_shape(it, shape)))
     t["ones"] = ModelFn("np.ones", lambda it, shape: npm.ones(_shape(it, shape)))
